@@ -112,6 +112,9 @@ Record hstep := {
   hs_rec_after : alist;               (* CONF_INSTALLED_PACKAGES of the live config entry object after the run *)
   hs_persisted : alist;               (* the record as last handed to async_update_entry (what survives a restart) *)
   hs_updated : bool;                  (* async_update_entry was called *)
+  hs_allow_user : bool;               (* allow_all_imports as the user last set it (possibly while the run was suspended) *)
+  hs_allow_live : bool;               (* ... as the live entry and the persisted entry data say after the run *)
+  hs_allow_pers : bool;
   hs_env_after : alist
 }.
 Record hcase := { hc_ranks : ranks; hc_env0 : alist; hc_rec0 : alist; hc_steps : list hstep }.
@@ -159,7 +162,8 @@ Fixpoint h_obs_with (get : hstep -> alist) (rec : alist) (steps : list hstep) : 
   | [] => []
   | h :: r =>
       (si_files (hs_in h), rows_otable (hs_table h),
-       {| ro_allow := si_allow (hs_in h); ro_env_before := hs_env_before h; ro_rec_before := rec;
+       {| ro_allow := si_allow (hs_in h); ro_required := map fst (hs_table h);
+          ro_env_before := hs_env_before h; ro_rec_before := rec;
           ro_done := N.eqb (hs_kind h) 2; ro_args := hs_args h; ro_rec_after := get h;
           ro_env_after := hs_env_after h |}) :: h_obs_with get (get h) r
   end.
@@ -169,7 +173,7 @@ Fixpoint m_obs (rec : alist) (ins : list step_in) (outs : list step_out) : list 
   match ins, outs with
   | i :: ins', o :: outs' =>
       (si_files i, table_otable (so_table o),
-       {| ro_allow := si_allow i; ro_env_before := so_env_before o; ro_rec_before := rec;
+       {| ro_allow := si_allow i; ro_required := map fst (so_table o); ro_env_before := so_env_before o; ro_rec_before := rec;
           ro_done := match so_out o with ODone _ _ _ => true | _ => false end;
           ro_args := match so_out o with
                      | ODone (p :: todo) _ _ => Some (map req_string (p :: todo))
@@ -187,8 +191,11 @@ Fixpoint h_survives (rec : alist) (steps : list hstep) : bool :=
   | [] => true
   | h :: r => dict_same (hs_rec_start h) rec && dict_same (hs_pers_start h) rec && h_survives (hs_persisted h) r
   end.
+(* the user's allow_all_imports survives every run, also when it was changed while the run was suspended in an await *)
+Definition h_allow_ok (steps : list hstep) : bool :=
+  forallb (fun h => Bool.eqb (hs_allow_live h) (hs_allow_user h) && Bool.eqb (hs_allow_pers h) (hs_allow_user h)) steps.
 Definition hcase_spec_ok (c : hcase) : bool :=
-  hspec_on (hc_ranks c) (h_obs (hc_rec0 c) (hc_steps c)) && h_survives (hc_rec0 c) (hc_steps c).
+  hspec_on (hc_ranks c) (h_obs (hc_rec0 c) (hc_steps c)) && h_survives (hc_rec0 c) (hc_steps c) && h_allow_ok (hc_steps c).
 Definition hcase_model_spec (cfg : deviations) (c : hcase) : bool :=
   hspec_on (hc_ranks c) (m_obs (hc_rec0 c) (map hs_in (hc_steps c)) (h_run cfg c)).
 Definition hcase_attrib (cfg : deviations) (c : hcase) : list nat :=
